@@ -136,6 +136,9 @@ void ThreadPool::threadLoop(unsigned tid) {
   do {
     me.wait(fastmode);
     cascade(fastmode);
+#ifdef GALOIS_VERIF
+    galois::verif::region(tid, +1);
+#endif
     try {
       work();
     } catch (const shutdown_ty&) {
@@ -153,6 +156,9 @@ void ThreadPool::threadLoop(unsigned tid) {
     } catch (...) {
       abort();
     }
+#ifdef GALOIS_VERIF
+    galois::verif::region(tid, -1);
+#endif
     decascade();
   } while (true);
 }
@@ -173,6 +179,7 @@ void ThreadPool::decascade() {
       }
     }
   }
+  GALOIS_VERIF_POINT(TP_DECASCADE);
   me.done = 1;
 }
 
@@ -191,6 +198,7 @@ void ThreadPool::cascade(bool fastmode) {
   child1->wbegin = me.wbegin + 1;
   child1->wend   = midpoint;
   child1->wakeup(fastmode);
+  GALOIS_VERIF_POINT(TP_CASCADE);
 
   if (midpoint < me.wend) {
     auto child2    = signals[midpoint];
@@ -215,12 +223,18 @@ void ThreadPool::runInternal(unsigned num) {
   // launch threads
   cascade(masterFastmode);
   // Do master thread work
+#ifdef GALOIS_VERIF
+  galois::verif::region(0, +1);
+#endif
   try {
     work();
   } catch (const shutdown_ty&) {
     return;
   } catch (const fastmode_ty& fm) {
   }
+#ifdef GALOIS_VERIF
+  galois::verif::region(0, -1);
+#endif
   // wait for children
   decascade();
   // Clean up
